@@ -34,12 +34,14 @@ def main():
     ap.add_argument("--list", action="store_true")
     ap.add_argument("--jobs", type=int, default=int(os.environ.get("VERIF_JOBS", "0")) or None)
     ap.add_argument("--keep", action="store_true")
+    ap.add_argument("--seed-add", type=int, default=0, help="added to VERIF_SEED (a second rotation of the seed-sampled groups)")
     a = ap.parse_args()
     if a.replay:
         return report.run_replay(a.replay)
     if a.tier not in ("quick", "thorough"):
         a.tier = "quick"
-    seed = int(os.environ.get("VERIF_SEED", "0") or 0)
+    seed = int(os.environ.get("VERIF_SEED", "0") or 0) + a.seed_add
+    os.environ["VERIF_SEED"] = str(seed)          # the property modules read the seed from the environment
     pid = a.prop.upper()
     mod = importlib.import_module("props." + pid.lower())
     groups = [g for g in mod.groups(a.tier) if a.tier in g.tiers]
